@@ -51,6 +51,7 @@ INVARIANTS = {
 TRIAGE = {
     # --- decoder region
     ("_derive_mol_from_symbols", "unpack", "(btype, n) = output"): "TABLE_SHAPE",
+    ("_derive_mol_from_symbols", "unpack", "(ring_type, n, stereo) = output"): "TABLE_SHAPE",
     ("_form_rings_bilocally", "unpack", "(order, (lstereo, rstereo)) = bond_info"): "QUEUE_SHAPE",
     ("_form_rings_bilocally", "unpack", "(lstereo, rstereo) = <element>"): "QUEUE_SHAPE",
     ("_form_rings_bilocally", "subscript", "rings_made[lidx]"): "ATOM_INDEX",
@@ -744,6 +745,18 @@ def check_termination(ctx, rep, E, ec):
                         for (f2, t2), v2 in HAND_LOOPS.items():
                             if (f2, t2) not in present and alpha(t2, f) == mine:
                                 entry = v2
+                    if entry is None:
+                        # the function's only while loop, respelled (`while True` ... break  ->  `while pending is not None`): the
+                        # hand-confirmed variant is an argument about the loop's body, which the single entry of this function
+                        # (whose own test text no longer occurs) still describes
+                        mine_loops = [n2 for n2 in own_nodes(f.node) if isinstance(n2, ast.While)]
+                        ents = [(k2, v2) for k2, v2 in HAND_LOOPS.items() if k2[0] == f.name]
+                        texts = {" ".join(unparse(n2.test).split()) for n2 in mine_loops}
+                        gone = [(k2, v2) for k2, v2 in ents if k2[1] not in texts]
+                        unexplained = [n2 for n2 in mine_loops if HAND_LOOPS.get((f.name, " ".join(unparse(n2.test).split()))) is None
+                                       and loop_template(ctx, info, n2, ec) is None]
+                        if len(gone) == 1 and len(unexplained) == 1 and unexplained[0] is node:
+                            entry = gone[0][1]
                     if entry is not None and entry[0] != "T-inc":
                         how = "%s: %s" % entry
             rep.ob("TERM", how is not None, node, f, construct="while %s" % tt, how=how or "",
@@ -956,6 +969,20 @@ def check_establishing(ctx, rep, E):
     return n
 
 
+def check_table_shape(ctx, rep, E):
+    """EST-TABLE_SHAPE: the values of the folded branch / ring tables are tuples of one arity each (2 and 3), which is what the
+    decoder unpacks after the None test"""
+    if ctx.db.funcs.get("selfies.grammar_rules.process_ring_symbol") is None or "selfies.grammar_rules.process_ring_symbol" not in E.quals:
+        return
+    from rules.symlang import symbol_table
+    for kind_, want_ in (("branch", 2), ("ring", 3)):
+        tab_ = symbol_table(ctx, kind_)
+        ars = {len(v) if isinstance(v, tuple) else None for v in tab_.values()}
+        rep.ob("EST", ars == {want_}, None, None, loc="selfies/grammar_rules.py", construct="%s table: %d entries" % (kind_, len(tab_)),
+               how="every value is a tuple of arity %d (establishes TABLE_SHAPE)" % want_, key="TABLE_SHAPE/" + kind_, nontrivial=True,
+               witness=None if ars == {want_} else "entries of the %s table have arities %s: the decoder's unpack raises" % (kind_, sorted(map(str, ars))))
+
+
 def check_cache_shape(ctx, rep, E):
     """EST-CACHE_SHAPE: what is stored into a module-level cache in the region is, on every path, a tuple of the arity
     that the readers of the cache unpack (never None)"""
@@ -1053,11 +1080,30 @@ def _unbound_confirmed(ctx, f, sites):
     return hit
 
 
+def _cycle_role(ctx, comp):
+    """a stable label for a recursion cycle: its role when it is the decoder's derivation or the encoder's fragment printer
+    (private functions may be renamed), else the function names"""
+    quals = set(comp)
+    try:
+        from rules import decmodel
+        if decmodel.find_roles(ctx)["D"].qual in quals and len(quals) == 1:
+            return "_derive_mol_from_symbols" if False else "decoder-derivation"
+    except AnalysisError:
+        pass
+    try:
+        from rules.shared import fragment_printer
+        if fragment_printer(ctx)[1].qual in quals and len(quals) == 1:
+            return "encoder-fragment-printer"
+    except AnalysisError:
+        pass
+    return "+".join(c.split(".")[-1] for c in comp)
+
+
 def check_recursion(ctx, rep, E):
     sccs = ctx.cg.sccs(E.quals)
     for comp in sccs:
         f = ctx.db.funcs[comp[0]]
         rep.ob("REC", False, f.node, f, construct="recursion cycle %s" % " -> ".join(c.split(".")[-1] for c in comp),
                witness="call-graph cycle whose depth grows with the input (one Python frame per nesting level): RecursionError can escape",
-               nontrivial=True, key="cycle/" + "+".join(c.split(".")[-1] for c in comp))
+               nontrivial=True, key="cycle/" + _cycle_role(ctx, comp))
     return len(sccs)
